@@ -173,6 +173,49 @@ try:
     SAME_LD, SAME_DP = _r.get_loader(_OutA), _r.get_dumper(_OutA)
 except Exception as _e:
     NAME_ERRORS.append(("same_name_nested", repr(_e)[:200]))
+# user names that coincide with the names the converter generator gives to its own helpers (constant_<n>, func_<n>, accessor_<n>, coercer, ...)
+import functools
+from decimal import Decimal
+from adaptix.conversion import link_constant, link
+GEN_NAMES = ["constant_0", "constant_1", "func_0", "func_1", "accessor_0", "coercer", "coercer_1", "_closure_signature", "_stub_function", "_update_wrapper",
+             "constructor", "convert", "src", "data", "Decimal", "int", "partial", "constant_0_1"]
+GMARK = Decimal("1.5")
+@dataclasses.dataclass
+class GSrc:
+    a: int
+def _named_fn(name, k):
+    def function(model):
+        return model.a + k
+    function.__name__ = name; function.__qualname__ = name
+    return function
+def _plus(k, v): return v + k                      # used through functools.partial: a callable without __name__ (generated name func_<n>)
+GEN_CASES = []           # (what, converter, expected(a))
+for _gn in GEN_NAMES:
+    try:
+        # (1) a linked function called like a generated name, next to a non-literal constant, a nameless partial and a second function of the same name
+        _D1 = dataclasses.make_dataclass("GDst", [("a", int), ("b", int), ("c", Decimal), ("d", int), ("e", int), ("f", Decimal)])
+        for _order in (0, 1):
+            _rec = [link_function(_named_fn(_gn, 100), P[_D1].b), link_constant(P[_D1].c, value=GMARK), link(P[GSrc].a, P[_D1].d, coercer=functools.partial(_plus, 7)),
+                    link_function(_named_fn(_gn, 200), P[_D1].e), link_constant(P[_D1].f, factory=functools.partial(Decimal, "2.5"))]
+            if _order: _rec = _rec[::-1]
+            GEN_CASES.append((("fn", _gn, _order), get_converter(GSrc, _D1, recipe=_rec), lambda a, D=_D1: D(a, a + 100, GMARK, a + 7, a + 200, Decimal("2.5"))))
+        # (2) the destination (and source) model called like a generated name
+        _S2 = dataclasses.make_dataclass(_gn, [("a", int)])
+        _D2 = dataclasses.make_dataclass(_gn, [("a", int), ("c", Decimal), ("d", int)])
+        GEN_CASES.append((("model", _gn, 0), get_converter(_S2, _D2, recipe=[link_constant(P[_D2].c, value=GMARK), link(P[_S2].a, P[_D2].d, coercer=functools.partial(_plus, 7))]),
+                          lambda a, D=_D2: D(a, GMARK, a + 7)))
+    except Exception as _e:
+        NAME_ERRORS.append(("gen_name", _gn, repr(_e)[:200]))
+NG = max(1, len(GEN_CASES))
+def gen_names(gi, a):
+    what, conv, exp = GEN_CASES[pick(gi, NG)]
+    if what[0] == "fn": out = conv(GSrc(a))
+    else:
+        import inspect
+        S = list(inspect.signature(conv).parameters.values())[0].annotation
+        out = conv(S(a))
+    return out == exp(a)
+
 def same_name_nested(x, y):
     out = CONV_SAME(_OutA(_InA(x), y))
     if type(out) is not _OutB or type(out.inner) is not _InB or (out.inner.x, out.y) != (x, y): return False
@@ -319,6 +362,10 @@ def build(tier, seed):
           family="model / function names with arbitrary characters", bounds="loader, dumper, converter of each named model; symbolic payload")
     mn.ob("names_hostile_params", "a: int, b: int, c: int, d: int, e: int", "return hostile_params(a, b, c, d, e)", timeout=tmo,
           family="converter stub parameters / linked functions named like generated identifiers", bounds="parameters coercer, data, ctx, constructor; function named data; symbolic ints")
+    mn.ob("names_generated_helpers", "gi: int, a: int", "return gen_names(gi, a)", pre=["0 <= gi < NG"], timeout=tmo,
+          family="user function / model names equal to the names the converter generator gives its own helpers",
+          bounds="18 names (constant_<n>, func_<n>, accessor_<n>, coercer, _closure_signature, ...) as the name of two linked functions (next to a non-literal constant, "
+                 "a nameless partial and a constant factory, both recipe orders) and as the name of source and destination model; symbolic int")
     mn.ob("names_same_name_nested", "x: int, y: int", "return same_name_nested(x, y)", timeout=tmo,
           family="different classes sharing one __name__ at two nesting levels (converter, loader, dumper)", bounds="symbolic ints")
     mk = Module("c19_kname").pre("from adaptix import Retort\n")
